@@ -143,6 +143,27 @@ def inflate_epilogue(ck, P):
                   "next_in is overwritten before total_in is computed from it", where(fn))
 
 
+def epilogue_all_paths(ck, P, fields=("avail_in", "next_in", "total_in", "avail_out", "next_out", "total_out", "adler"), R="CUT/inflate-epilogue"):
+    """What inflate() reports back in the z_stream is reported after every call: each of these fields is stored on every path from
+    the return of State::dispatch to the return of inflate() - not only when a check value is being maintained, a header is
+    being parsed, or the call made progress.  (zlib stores strm->adler in the DICTID state itself; zlib-rs has only this place.)"""
+    fn = P.fn(Z + "inflate::inflate")
+    if not ck.anchor("fn inflate::inflate", fn):
+        return
+    ck.use_fn(fn)
+    disp = fn.live_calls(r"inflate::State::dispatch$")
+    if not ck.anchor("dispatch call in inflate()", len(disp) == 1):
+        return
+    start = disp[0].target
+    rets = [b for b in fn.live if fn.blocks[b]["t"]["k"] == "return"]
+    for fld in fields:
+        stores = {bi for bi, fp, root, rv, st in fn.field_writes() if fp == (fld,) and bi in fn.live}
+        ok = bool(stores) and (start in stores or not flow.reaches_avoiding(fn, [start], rets, cut_blocks=stores))
+        ck.decide(ok, R, fld, "stored on every path after dispatch",
+                  "inflate() can return without storing strm.%s (the store is conditional or missing on some path after dispatch): the caller "
+                  "reads a stale value - for adler, the dictionary id announced with Z_NEED_DICT" % fld, where(fn))
+
+
 def dup_total(ck, P):
     """inflate() publishes `state.total` as `stream.total_out` on every call (ATOM/inflate-epilogue:total_out), so the two are
     copies of one quantity.  Any other function of the inflate module that gives total_out a value must give state.total
@@ -320,11 +341,39 @@ def avoid_spurious_buferror(ck, P):
               "Z_BUF_ERROR although the flush is incomplete" % n, where(fn))
 
 
+TOTAL_WRITERS = {
+    # the data movers, the resets, and inflateSync (which restores the totals around its reset)
+    Z + "deflate::algorithm::stored::deflate_stored", Z + "deflate::algorithm::stored::read_buf_direct_copy", Z + "deflate::flush_pending",
+    Z + "deflate::read_buf_window", Z + "deflate::reset_keep", Z + "inflate::inflate", Z + "inflate::reset_keep", Z + "inflate::sync",
+    Z + "stable::Deflate::compress_uninit", Z + "stable::Deflate::reset", Z + "stable::Inflate::decompress_uninit", Z + "stable::Inflate::reset",
+}
+
+
+def total_writers(ck, P, R="WHO/total-writers"):
+    """The running totals are sums over the bytes moved: they are stored where bytes move (and where a stream is reset), and
+    nowhere else.  Any other function that assigns total_in / total_out (a save-and-restore around a helper, a correction) makes
+    the totals differ from the sums for the calls that go through it."""
+    n = 0
+    for f in sorted(P.fns.values(), key=lambda f: f.path):
+        if not (f.path.startswith(Z) or f.path.startswith("libz_rs_sys::")):
+            continue
+        w = sorted({str(fp[-1]) for bi, fp, root, rv, st in f.field_writes() if fp and len(fp) == 1 and str(fp[-1]) in ("total_in", "total_out") and bi in f.live})
+        if not w:
+            continue
+        n += 1
+        ck.decide(f.path in TOTAL_WRITERS, R, f.path.replace(Z, ""), "a data mover or a reset",
+                  "%s assigns %s of the z_stream; it is neither one of the functions that move bytes nor a reset: the totals no longer equal "
+                  "the sums over the bytes moved" % (f.path.replace(Z, ""), "/".join(w)), where(f))
+    ck.floor(R, n, 8)
+
+
 def run(ck):
     P = prog("K1")
     ck.configs.add("K1")
     coupdate(ck, P)
+    total_writers(ck, P)
     inflate_epilogue(ck, P)
+    epilogue_all_paths(ck, P)
     dup_total(ck, P)
     total_compensation(ck, P)
     one_shot(ck, P)
